@@ -474,3 +474,62 @@ pub fn state_script(mut i: usize, cols: usize, rows: usize) -> String {
     }
     s
 }
+
+// ---------------------------------------------------------------------------------------------
+// G3w "sandwich": command A, a perturbation, command A again (same pen) - aimed at stale caches,
+// fast paths and bookkeeping that is only invalidated on some of the paths that should do so
+
+pub fn sandwich_histories(prop: &str, cols: usize, rows: usize) -> Vec<History> {
+    let cmds = g3_commands(prop, cols, rows);
+    let lf = "\n".repeat(rows + 1);
+    let ri = "\x1bM".repeat(rows + 1);
+    let crlf = "\r\n".repeat(rows);
+    let perturb: Vec<Vec<Call>> = vec![
+        vec![Call::FeedStr(lf.clone())],
+        vec![Call::FeedStr(format!("\x1b[{};1H{}", rows, lf))],
+        vec![Call::FeedStr("\x1b[S".into())],
+        vec![Call::FeedStr("\x1b[2S".into())],
+        vec![Call::FeedStr("\x1b[T".into())],
+        vec![Call::FeedStr(ri)],
+        vec![Call::FeedStr("\x1b[H\x1b[L".into())],
+        vec![Call::FeedStr("\x1b[H\x1b[M".into())],
+        vec![Call::FeedStr("x".into())],
+        vec![Call::FeedStr(crlf)],
+        vec![Call::Resize(cols + 1, rows)],
+        vec![Call::Resize(cols, rows + 1)],
+        vec![Call::Resize(cols.saturating_sub(1).max(1), rows.saturating_sub(1).max(1))],
+        vec![Call::Resize(cols + 2, rows), Call::Resize(cols, rows)],
+        vec![Call::FeedStr("\x1b[?1047h\x1b[?1047l".into())],
+        vec![Call::FeedStr("\x1b[?1049hq\x1b[?1049l".into())],
+        vec![Call::FeedStr("\x1b[?1047h".into())],
+        vec![Call::FeedStr("\x1b[2;3r".into())],
+        vec![Call::FeedStr("\x1b[?6h".into())],
+        vec![Call::FeedStr("\x1b#8".into())],
+        vec![Call::FeedStr("\x1b[2J".into())],
+        vec![Call::FeedStr("\x1b[K\x1b[X".into())],
+        vec![Call::FeedStr("\x1b[@\x1b[P".into())],
+        vec![Call::FeedStr("\x1b[!p".into())],
+        vec![Call::FeedStr("\x1b7\x1b[2;2H\x1b8".into())],
+        vec![Call::FeedStr("\t\x1b[4h\x1b[?7l".into())],
+        vec![Call::FeedStr(format!("\x1b[{};{}Hyy", rows, cols))],
+        vec![],
+    ];
+    let pens = ["\x1b[m", "\x1b[41m", "\x1b[1;4;38;5;100m"];
+    let pre = ["", "ab\r\ncdefgh"];
+    let mut out = Vec::new();
+    for a in &cmds {
+        for (yi, y) in perturb.iter().enumerate() {
+            for (pi, p) in pens.iter().enumerate() {
+                let q = pens[(pi + 1 + yi % 2) % pens.len()];
+                let mut h = History::new(cols, rows, None);
+                h.calls.push(Call::FeedStr(format!("{}{}{}", pre[(yi + pi) % 2], p, a)));
+                h.calls.push(Call::FeedStr(q.to_string()));
+                h.calls.extend(y.iter().cloned());
+                h.calls.push(Call::FeedStr(format!("{}{}", p, a)));
+                h.calls.push(Call::FeedStr("\x1b[mz".into()));
+                out.push(h);
+            }
+        }
+    }
+    out
+}
